@@ -7,6 +7,7 @@ import (
 	"go/types"
 	"math"
 	"unicode/utf8"
+	"unsafe"
 
 	"golang.org/x/tools/go/ssa"
 )
@@ -310,6 +311,9 @@ func (m *Machine) unop(fr *frame, instr *ssa.UnOp, x Value) Value {
 		}
 		return BVNeg(t)
 	case token.MUL:
+		if sp, ok := x.(*SymPtr); ok {
+			return muxRead(len(sp.elems), func(i int) *Term { return sp.elems[i].(*Term) }, sp.idx)
+		}
 		p, ok := x.(*Value)
 		if !ok {
 			if u, ok := x.(UPtr); ok {
@@ -636,6 +640,43 @@ func (m *Machine) callBuiltin(caller *frame, callpos token.Pos, fn *ssa.Builtin,
 		return recv
 	case "ssa:deferstack":
 		return &caller.defers
+	case "SliceData":
+		xs := args[0].([]Value)
+		if cap(xs) == 0 {
+			return (*Value)(nil)
+		}
+		return &xs[:1][0]
+	case "StringData":
+		bs := sliceOfStr(args[0].(Str))
+		if len(bs) == 0 {
+			return (*Value)(nil)
+		}
+		return &bs[0]
+	case "String":
+		n := int(m.concInt(args[1]))
+		if n == 0 {
+			return Str{}
+		}
+		p := args[0].(*Value)
+		if p == nil {
+			m.rtPanic("unsafe.String: ptr is nil and len is not zero")
+		}
+		return strOfSlice(unsafe.Slice(p, n))
+	case "Slice":
+		n := int(m.concInt(args[1]))
+		switch p := args[0].(type) {
+		case *Value:
+			if p == nil {
+				if n != 0 {
+					m.rtPanic("unsafe.Slice: ptr is nil and len is not zero")
+				}
+				return []Value(nil)
+			}
+			return unsafe.Slice(p, n)[:n:n]
+		}
+		m.unsupported("unsafe.Slice on %T", args[0])
+	case "Add":
+		m.unsupported("unsafe.Add")
 	}
 	panic("unknown built-in: " + fn.Name())
 }
@@ -680,7 +721,7 @@ func (it *stringIter) next(m *Machine) Tuple {
 		// non-ASCII symbolic: concretise up to 4 bytes
 		var bs []byte
 		for j := 0; j < 4 && it.i+j < it.s.Len(); j++ {
-			bs = append(bs, byte(m.path.Concretize(it.s.At(it.i+j))))
+			bs = append(bs, byte(m.concretize(it.s.At(it.i+j))))
 			if utf8.FullRune(bs) {
 				break
 			}
@@ -691,7 +732,7 @@ func (it *stringIter) next(m *Machine) Tuple {
 	}
 	var bs []byte
 	for j := 0; j < 4 && it.i+j < it.s.Len(); j++ {
-		bs = append(bs, byte(m.path.Concretize(it.s.At(it.i+j))))
+		bs = append(bs, byte(m.concretize(it.s.At(it.i+j))))
 		if utf8.FullRune(bs) {
 			break
 		}
@@ -819,7 +860,7 @@ func (m *Machine) conv(tdst, tsrc types.Type, x Value) Value {
 					// concretise bytes
 					var bb []byte
 					for _, b := range s.Bytes() {
-						bb = append(bb, byte(m.path.Concretize(b)))
+						bb = append(bb, byte(m.concretize(b)))
 					}
 					cs = string(bb)
 				}
